@@ -120,6 +120,10 @@ func clBackupErrors(c *Ctx) {
 // namedErrCell finds the named error result cell of fn (spilled because
 // deferred closures capture it).
 func namedErrCell(fn *ssa.Function) *ssa.Alloc {
+	res := fn.Signature.Results()
+	if res.Len() == 0 || res.At(res.Len()-1).Name() == "" || res.At(res.Len()-1).Name() == "_" {
+		return nil // unnamed result: deferred functions cannot change what is returned
+	}
 	for _, in := range fn.Blocks[0].Instrs {
 		if al, ok := in.(*ssa.Alloc); ok {
 			if types.Identical(al.Type().Underlying().(*types.Pointer).Elem(), errorType) && al.Comment != "" {
@@ -190,6 +194,21 @@ func clDeferKeepsError(c *Ctx, fns []*ssa.Function) {
 				})
 				c.Check(ok2, cl, st, cnt.in(cl, "deferred assignment to the error result only while it is nil"),
 					"a deferred function overwrites the function's error result unconditionally: an error found earlier (e.g. a failed shard write) is replaced by the deferred step's nil and the caller sees success")
+			}
+		}
+	}
+	// deferred error handling needs a named result to report through
+	for _, fn := range fns {
+		if namedErrCell(fn) != nil {
+			continue
+		}
+		for cl := range deferredClosures(fn) {
+			for _, in := range p.Info(cl).Instrs {
+				if ev, has := errResult(in); has && ev != nil && len(p.errSinks(ev)) > 0 {
+					n++
+					c.Check(false, cl, in, cnt.in(cl, "error found by a deferred function reaches the caller through a named result"),
+						"the function's error result is not a named result, so what its deferred functions assign (writer Close errors, the terminate handshake, delta manifest writes) is discarded: the value returned was fixed before they ran")
+				}
 			}
 		}
 	}
@@ -281,6 +300,11 @@ func clManifestsAfterSuccess(c *Ctx) {
 	}
 	fj := find(fn, "files.json")
 	cj := find(fn, "checksums.json")
+	nj := find(fn, "nitro.json")
+	if c.Check(nj != nil, fn, nil, "format version manifest (nitro.json) is written", "the backup no longer records its format version") && fj != nil {
+		c.Check(guardedByNilOf(fn, fj, nj) && guardedByNilOf(fn, vs[0], nj), fn, nj, "nitro.json is written (successfully) before the scan and the data manifests",
+			"the version manifest is written after files.json: a process death (or a failed later write) leaves a directory with files.json but without nitro.json, which LoadFromDisk reads as format version 0 — every current-format shard then looks empty and an empty snapshot is restored as success")
+	}
 	if c.Check(fj != nil && cj != nil, fn, nil, "data manifests are written", "StoreToDisk no longer writes data/files.json and data/checksums.json") {
 		c.Check(guardedByNilOf(fn, fj, vs[0]), fn, fj, "data/files.json only after the scan succeeded", "the file list is written although the scan failed (or before it ran): a partial backup looks complete to LoadFromDisk")
 		if h := helperOf[cj]; h != nil && cj == fj {
